@@ -378,4 +378,6 @@ def run(ctx: Check, tree: Tree) -> None:
     ctx.section(check_axisangle_structure, ctx, tree)  # the alignment rotation is a unitary change of basis only if every D is bound to its summation symbols
     from .c02 import check_group_key
 
-    ctx.section(check_group_key, ctx, tree)
+    # (which of two identical particles carries which helicity does not matter for rotation invariance:
+    #  final-state helicities are rotation-invariant labels - that clause belongs to C02 only)
+    ctx.section(check_group_key, ctx, tree, state_identity=False)
